@@ -817,6 +817,7 @@ type c16Partition struct {
 	kind     string
 	maxRange uint64
 	sel      []bool // per head of the head sequence
+	faults   map[int]int // head index -> the j-th eth_getLogs call of the TriggerProcessor in that Sync fails once (the head is then processed again)
 }
 
 func (p *c16Partition) String(hs []c16Head) string {
@@ -825,6 +826,9 @@ func (p *c16Partition) String(hs []c16Head) string {
 	for i, h := range hs {
 		if p.sel[i] {
 			fmt.Fprintf(&sb, " %c%d", h.phase, h.blk.Number())
+			if j := p.faults[i]; j > 0 {
+				fmt.Fprintf(&sb, "(getLogs#%d fails, again)", j)
+			}
 		}
 	}
 	return sb.String()
@@ -1026,6 +1030,7 @@ func (c *c16Chain) drawPartition(rt *rapid.T, l string, hs []c16Head, forceEvery
 type c16Outcome struct {
 	fail      *failure
 	multiSpan bool // some Sync fetched more than one block
+	labels    []string
 	final     map[string]string
 }
 
@@ -1043,12 +1048,34 @@ func (c *c16Chain) runPartition(hs []c16Head, p *c16Partition) c16Outcome {
 			continue
 		}
 		m.chain.SetHead(h.blk)
+		when := fmt.Sprintf("after Sync(%c%d)", h.phase, h.blk.Number())
+		if j := p.faults[i]; j > 0 {
+			// a transient JSON-RPC failure of one eth_getLogs call; the keyper logs
+			// the error of Sync (if any) and the head is processed again
+			// (the j-th eth_getLogs call of the TriggerProcessor: the call order of the
+			// two processors is a map iteration in the syncer and not reproducible)
+			m.chain.FailGetLogs(j, triggerAddr)
+			err := sync(context.Background(), types.CopyHeader(h.blk.Header))
+			fired := m.chain.FaultFired()
+			m.chain.FailGetLogs(0, triggerAddr)
+			if fired {
+				out.labels = append(out.labels, "rpc-fault:eth_getLogs-call-failed-in-a-sync")
+				if err != nil {
+					out.labels = append(out.labels, "rpc-fault:sync-returned-error")
+				} else {
+					out.labels = append(out.labels, "rpc-fault:sync-returned-nil")
+				}
+			} else if err != nil {
+				out.fail = &failure{"sync-error", fmt.Sprintf("%s: unexpected error although the planned fault did not fire: %v", when, err)}
+				return out
+			}
+			when += fmt.Sprintf(" (processed again after eth_getLogs call %d failed)", j)
+		}
 		err := sync(context.Background(), types.CopyHeader(h.blk.Header))
 		if u := node.Srv.Unsupported(); len(u) > 0 {
 			recC16.Inconclusive(fmt.Sprintf("pgfake: unsupported SQL: %v", u))
 			panic(fmt.Sprintf("pgfake could not execute a statement (inconclusive): %v", u))
 		}
-		when := fmt.Sprintf("after Sync(%c%d)", h.phase, h.blk.Number())
 		if err != nil {
 			out.fail = &failure{"sync-error", fmt.Sprintf("%s: unexpected error without any fault: %v", when, err)}
 			return out
@@ -1149,6 +1176,14 @@ func runC16Case(rt *rapid.T, nPartitions int) {
 		if exclF9 && c.excludeF9(hs, p) {
 			recC16.Excluded(sigF9)
 		}
+		if rapid.IntRange(0, 2).Draw(rt, fmt.Sprintf("p%dfaulty", k)) == 0 {
+			p.faults = map[int]int{}
+			for i := range hs {
+				if p.sel[i] && rapid.IntRange(0, 2).Draw(rt, fmt.Sprintf("p%dfault%d", k, i)) == 0 {
+					p.faults[i] = rapid.SampledFrom([]int{1, 1, 2, 2, 3, 4}).Draw(rt, fmt.Sprintf("p%dfaultCall%d", k, i))
+				}
+			}
+		}
 		out := c.runPartition(hs, p)
 		pd := p.String(hs)
 		if out.fail != nil {
@@ -1160,6 +1195,7 @@ func runC16Case(rt *rapid.T, nPartitions int) {
 		if out.multiSpan {
 			labels = append(labels, "sync-spans-several-blocks")
 		}
+		labels = append(labels, dedupSorted(out.labels)...)
 		recC16.Case(c.desc+" | "+pd, nontrivial, labels...)
 		finals = append(finals, out.final)
 		descs = append(descs, pd)
